@@ -1206,7 +1206,7 @@ class Timezone(Component):
         transitions = []
         tznames = set()
         for component in self.walk():
-            if type(component) == Timezone:
+            if isinstance(component, Timezone):
                 continue
             assert isinstance(component['DTSTART'].dt, datetime), (
                 "VTIMEZONEs sub-components' DTSTART must be of type datetime, not date"
